@@ -32,6 +32,12 @@ def nnf(t, alg, neg=False):
         return nnf((base, tuple(t[2])), alg, neg)
     if k == 'call' and t[1] == 'numpy.logical_not' and len(t[2]) == 1:
         return nnf(t[2][0], alg, not neg)
+    if k == 'bin' and t[1] in ('&', '|') and _boolish(t[2]) and _boolish(t[3]):
+        return nnf(('and' if t[1] == '&' else 'or', (t[2], t[3])), alg, neg)
+    if k == 'un' and t[1] == '~' and _boolish(t[2]):
+        return nnf(t[2], alg, not neg)
+    if k == 'bin' and t[1] == '*' and _boolish(t[2]) and _boolish(t[3]):
+        return nnf(('and', (t[2], t[3])), alg, neg)
     if k == 'cmp':
         op, a, b = t[1], t[2], t[3]
         # x == False / x is False / x != True  -> not x
@@ -52,6 +58,22 @@ def nnf(t, alg, neg=False):
                 ca, cb = cb, ca
             return ('lit', '%s %s %s' % (ca, op, cb), True)
     return ('lit', alg.canon(t), not neg)
+
+
+def _boolish(t):
+    """comparisons and boolean combinations of them (elementwise masks)"""
+    if t[0] == 'cmp':
+        return True
+    if t[0] in ('and', 'or'):
+        return True
+    if t[0] == 'un' and t[1] in ('~', 'not'):
+        return _boolish(t[2])
+    if t[0] == 'bin' and t[1] in ('&', '|'):
+        return _boolish(t[2]) and _boolish(t[3])
+    if t[0] == 'call' and t[1] in ('numpy.logical_and', 'numpy.logical_or', 'numpy.logical_not', 'numpy.isnan',
+                                   'numpy.any', 'numpy.all'):
+        return True
+    return False
 
 
 def _flat(kind, kids):
